@@ -108,10 +108,9 @@ DecPathFull(toks) ==
 DecPath(toks) == LET r == DecPathFull(toks) IN [ok |-> r.ok, v |-> r.v]
 
 (***************************************************************************)
-(* add_path_data.  Output tokens; the distinguished token "LETTER," marks a *)
-(* type letter followed by ',' although more of the path follows or nothing *)
-(* was written (what the decoder then sees is a letter token glued to the   *)
-(* rest of the line).                                                       *)
+(* add_path_data.  Output tokens; a token such as "L," marks a type letter   *)
+(* followed by ',' although more of the path follows (what the decoder then *)
+(* sees is a path ending in a bare letter and a garbled repeat count).      *)
 (*   FixedSep   FALSE = pinned behaviour: ',' after every letter written    *)
 (*              for the LAST control point; TRUE = repaired: ',' only for a *)
 (*              one-point path                                              *)
@@ -129,14 +128,15 @@ EncPathWith(cps, FixedSep, ForceLast) ==
                 needs  == typed /\ (pt.ty # lastTy \/ pt.ty = "P" \/ dup \/ (ForceLast /\ i = n /\ i > 1))
                 broken == IF FixedSep THEN FALSE ELSE (i = n /\ i # 1)
                 o1     == IF typed
-                          THEN (IF needs THEN out \o <<IF broken THEN "LETTER," ELSE pt.ty>> ELSE out \o <<pt.p>>)
+                          THEN (IF needs THEN out \o <<IF broken THEN pt.ty \o "," ELSE pt.ty>> ELSE out \o <<pt.p>>)
                           ELSE out
                 o2     == IF i # 1 THEN o1 \o <<pt.p>> ELSE o1
             IN E(i + 1, IF needs THEN pt.ty ELSE lastTy, o2)
     IN E(1, "none", <<>>)
 
 \* what the decoder makes of an encoded path: a "LETTER," makes the line unparsable
-Reparse(toks) == IF \E i \in 1..Len(toks) : toks[i] = "LETTER," THEN Err ELSE DecPath(toks)
+BrokenLetters == {"B,", "L,", "P,", "C,", "B3,"}
+Reparse(toks) == IF \E i \in 1..Len(toks) : toks[i] \in BrokenLetters THEN Err ELSE DecPath(toks)
 
 ----------------------------------------------------------------------------
 \* C14 structural facts about every successfully decoded control-point list
